@@ -23,6 +23,7 @@ class WSession:
         except IndexError:
             pass
         self.writers, self.backing, self.disc = [], [], []
+        self.closed = {}
         for i, k in enumerate(self.kinds):
             if k == "path":
                 path = os.path.join(self.dir, "sub%d" % i, "out%d.gcode" % i)
@@ -62,8 +63,10 @@ class WSession:
 
     def observe(self):
         out = []
-        for k, b in zip(self.kinds, self.backing):
-            if k == "path":
+        for i, (k, b) in enumerate(zip(self.kinds, self.backing)):
+            if i in self.closed:
+                out.append(self.closed[i])
+            elif k == "path":
                 try:
                     with open(b, "rb") as fh:
                         out.append(list(fh.read()))
@@ -101,6 +104,13 @@ class WSession:
                 else:
                     data = d["text"].rstrip().encode("utf-8") + self.eol.encode()
                     g.write(d["text"])
+            elif act == "close_stream":
+                # the USER closes a stream they had handed to a FileWriter (it is theirs); what it held is remembered here
+                w = d["w"] - 1
+                if self.kinds[w] in ("binary", "text") and w not in self.closed:
+                    b = self.backing[w]
+                    self.closed[w] = list(b.getvalue()) if self.kinds[w] == "binary" else list(b.getvalue().encode("utf-8"))
+                    b.close()
             elif act == "flush":
                 g.flush()
             elif act == "teardown":
